@@ -17,7 +17,7 @@ T = {
  "C03": ("proof", "every path of __and__/__or__/__xor__ proved equal to the spec functions; algebraic laws, README rows, UNKNOWN soundness/tightness as lemmas; finite domain also enumerated on the real operators",
          "contract VCs from the AST discharged by z3 (finite sorts) + complete enumeration", ASSUME_PY, "4 C03"),
  "C04": ("proof", "per-callback contracts proved from the AST for all operand nodes; induction steps as lemmas over the contracts; final mapping proved; induction principle A-LARK-FOLD assumed; bounded API backstop separate",
-         "contract VCs (z3) on transformer callbacks + induction-step lemmas; bounded backstop", ASSUME_PY + "; A-LARK-FOLD is the induction principle", "4 C04"),
+         "contract VCs (z3) on transformer callbacks + induction-step lemmas; bounded backstop (sequences replayed in a forked child, same tree evaluated twice)", ASSUME_PY + "; A-LARK-FOLD is the induction principle", "4 C04"),
  "C05": ("proof", "lemmas over the contracts of C03/C04 (hint insertion, format-constraint attachment, operand swap, UNKNOWN monotonicity) proved by z3; metamorphic bounded backstop separate",
          "lemmas over contracts (z3) + metamorphic bounded backstop", ASSUME_PY + "; A-LARK-FOLD", "4 C05"),
  "C06": ("proof", "raise conditions of the callbacks proved equal to the structural criterion; ghost invariant carried by the induction steps; is_valid_expression clause relative to a bounded-validated callee (C18)",
@@ -31,11 +31,11 @@ T = {
  "C10": ("other", "time-condition mapping, package lookup and order of expansion proved by z3; substitution identity decided by a bounded check against a textual oracle",
          "contract VCs (z3) + bounded check vs textual substitution oracle", ASSUME_PY + "; placeholder replacement pass is bounded only", "4 C10"),
  "C11": ("other", "ownership obligation on tree_copy.decorated (nothing reachable from the result is reachable from the cache) using Lark's own Tree.copy/__deepcopy__ source; bounded history replay",
-         "object-graph ownership analysis of the real AST + bounded history replay", "A-STDLIB (lru_cache, deepcopy); bounded histories", "4 C11"),
+         "object-graph ownership analysis of the real AST + ground encapsulation obligations (state/*) + bounded history replay (parsers, resolver, expansions)", "A-STDLIB (lru_cache, deepcopy); bounded histories", "4 C11"),
  "C12": ("other", "order/association obligations at the gather sites proved by z3 relative to the asyncio model; frame obligations from the AST; adversarial schedules bounded",
-         "association VCs (z3) given A-ASYNCIO + syntactic frame obligations + bounded adversarial schedules", "A-ASYNCIO (gather order, context copy), A-INJECT; the event loop itself is exercised only by the bounded schedules", "4 C12"),
+         "association VCs (z3) given A-ASYNCIO + syntactic frame obligations + bounded adversarial schedules + concurrent evaluations on the shipped singleton evaluators", "A-ASYNCIO (gather order, context copy), A-INJECT; the event loop itself is exercised only by the bounded schedules", "4 C12"),
  "C13": ("proof", "all ten functions of validation.py proved against the recursive spec flat/deep (list algebra + z3); bounded API backstop separate",
-         "contract VCs (z3 + list-term algebra) on validation.py; bounded backstop", ASSUME_PY + "; A-ASYNCIO (gather keeps argument order), A-MAUS", "4 C13"),
+         "contract VCs (z3 + list-term algebra) on validation.py; bounded backstop incl. validation histories in one task", ASSUME_PY + "; A-ASYNCIO (gather keeps argument order), A-MAUS", "4 C13"),
  "C14": ("proof", "call-site obligations: every internal call forwards soll_is_required; lemma map(.,SOLL,b)=map(.,b?MUSS:KANN,.)",
          "call-site obligations + lemma (z3); bounded backstop", ASSUME_PY, "4 C14"),
  "C15": ("other", "ContextVar as context-local ghost state: value seen by the evaluation = own input, proved relative to the asyncio model; adversarial schedules bounded",
@@ -45,11 +45,11 @@ T = {
  "C17": ("proof", "value-pool contract with accumulating-loop rule proved by z3 (offered = filter in pool order, status, flag, reset)",
          "loop VC (z3, list-term algebra) on validate_data_element_valuepool; bounded backstop", ASSUME_PY + "; qualifiers of a pool are distinct", "4 C17"),
  "C18": ("other", "number ranges proved for all integers (linear arithmetic); partition / sanitize / union obligations; Cartesian-product identity bounded",
-         "contract VCs (z3, LIA) + bounded enumeration identity", ASSUME_PY + "; itertools (bounded only)", "4 C18"),
- "C19": ("exploration", "bounded round-trip check of every schema over small field domains and produced objects; ground schema/class conformance obligations",
-         "bounded round trips + ground conformance obligations from both ASTs", "A-MARSHMALLOW; bounded only", "4 C19"),
+         "contract VCs (z3, LIA) + bounded enumeration identity incl. generate/edit/generate histories", ASSUME_PY + "; itertools (bounded only)", "4 C18"),
+ "C19": ("exploration", "bounded round-trip check of every schema over small field domains and produced objects; the post_load / pre_dump / post_dump hook bodies proved from their AST (field-wise construction, wrapper hooks inverse, indicator values); ground schema/class conformance obligations",
+         "contract VCs (z3) on the schema hook bodies + bounded round trips (incl. one-schema-instance histories) + ground conformance obligations from both ASTs", "A-MARSHMALLOW (field (de)serialisation and hook dispatch assumed); the round trip through marshmallow is bounded only; ContentEvaluationResultSchema.deserialize bounded only", "4 C19"),
  "C20": ("other", "date/time predicates proved over (instant, offset) pairs given stdlib/pytz contracts; pytz table checked completely; ISO notation sweep bounded",
-         "contract VCs over integer instants (z3) + complete tz-table check + bounded notation sweep", "A-DATETIME, A-PYTZ (table checked completely each run)", "4 C20"),
+         "contract VCs over integer instants (z3) + complete tz-table check + bounded notation sweep + random-order histories around every DST switch", "A-DATETIME, A-PYTZ (table checked completely each run)", "4 C20"),
 }
 props = [json.loads(l)["id"] for l in open(f"{V}/properties.jsonl")]
 checks, na = [], []
